@@ -41,6 +41,11 @@ pub fn creds(c: u8) -> Creds {
             pass_key: crate::menu::long_pass(129, false),
             other_pass_key: crate::menu::long_pass(129, true),
         },
+        // 3..5: a client that has a NEIGHBOUR (see `neighbour_of`): the same user name with another password, the first set
+        // again, and another user name with the first password
+        3 => Creds { user: USER, pass: "another password", other_pass: "another passwore", pass_key: "another password", other_pass_key: "another passwore" },
+        4 => creds(0),
+        5 => Creds { user: "user2", pass: PASS, other_pass: OTHER_PASS, pass_key: PASS, other_pass_key: OTHER_PASS },
         _ => Creds {
             user: "\u{30de}\u{30c8}\u{30ea}\u{30c3}\u{30af}\u{30b9}",
             // (long enough that its bytes cannot turn up in a random transaction id or MAC by chance: C08 searches every
@@ -50,6 +55,18 @@ pub fn creds(c: u8) -> Creds {
             pass_key: "correct horse battery",
             other_pass_key: "correct horse batterz",
         },
+    }
+}
+
+/// Credential sets 3..5 stand for a client with a neighbour: ANOTHER client object (credential set given here), driven
+/// earlier on the same thread through complete authenticated exchanges and dropped before the client under test is even
+/// built. Nothing the neighbour did may influence the client under test (the monitors judge it by its own configuration).
+pub fn neighbour_of(c: u8) -> Option<u8> {
+    match c {
+        3 => Some(0),
+        4 => Some(3),
+        5 => Some(0),
+        _ => None,
     }
 }
 
@@ -303,8 +320,52 @@ fn reason(e: &StunTransactionError) -> Reason {
     }
 }
 
+/// The life of a neighbour client (see `neighbour_of`): with long-term credentials a 401 challenge (realm 0, no algorithms),
+/// the retry, an authenticated success; then a second challenge offering SHA-256, the retry, an authenticated success. With
+/// short-term credentials one authenticated exchange. Deliveries and non-deliveries are counted (the neighbour is a real
+/// client with the right password talking to the reference server: every response must be delivered).
+pub static NEIGHBOUR_OK: std::sync::atomic::AtomicU64 = std::sync::atomic::AtomicU64::new(0);
+pub static NEIGHBOUR_FAILED: std::sync::atomic::AtomicU64 = std::sync::atomic::AtomicU64::new(0);
+fn run_neighbour(cfg: &Cfg) {
+    use super::server::{build_reply, Chal, NonceKind, PasKind, RClass, RFp, RMac, Reply};
+    let mut w = World::new(cfg, std::sync::Arc::new(vec![vec![]]));
+    let fp = if cfg.fingerprint { RFp::Valid } else { RFp::Absent };
+    let mut exchange = |w: &mut World, chal: Option<Chal>, mac: RMac| {
+        w.send(0);
+        if let Some(c) = chal {
+            let r = w.reqs.last().expect("neighbour: request sent");
+            let b = build_reply(w, r.id, Some(&r.first), &Reply::plain(RClass::Error(401)).with_chal(c).with_fp(fp));
+            let o = w.recv(&b);
+            if !o.events.iter().any(|e| matches!(e, OEv::Retry(_))) {
+                NEIGHBOUR_FAILED.fetch_add(1, std::sync::atomic::Ordering::Relaxed);
+            }
+            w.send(0);
+        }
+        let r = w.reqs.last().expect("neighbour: request sent");
+        let b = build_reply(w, r.id, Some(&r.first), &Reply::plain(RClass::Success).with_mac(mac).with_fp(fp));
+        let o = w.recv(&b);
+        if o.events.iter().any(|e| matches!(e, OEv::Recv { .. })) {
+            NEIGHBOUR_OK.fetch_add(1, std::sync::atomic::Ordering::Relaxed);
+        } else {
+            NEIGHBOUR_FAILED.fetch_add(1, std::sync::atomic::Ordering::Relaxed);
+        }
+    };
+    match cfg.mech {
+        Mech::LongTerm => {
+            exchange(&mut w, Some(Chal { realm: true, nonce: NonceKind::Plain(0), pas: PasKind::Absent, realm_v: 0, order: 0 }), RMac::Mi);
+            exchange(&mut w, Some(Chal { realm: true, nonce: NonceKind::Cookie(true, false, 1), pas: PasKind::Sha256, realm_v: 0, order: 0 }), RMac::Sha);
+        }
+        Mech::ShortTerm(Some(true)) => exchange(&mut w, None, RMac::Sha),
+        Mech::ShortTerm(_) => exchange(&mut w, None, RMac::Mi),
+        Mech::None => exchange(&mut w, None, RMac::None),
+    }
+}
+
 impl World {
     pub fn new(cfg: &Cfg, app_lists: std::sync::Arc<Vec<Vec<L>>>) -> World {
+        if let Some(n) = neighbour_of(cfg.cred) {
+            run_neighbour(&Cfg { cred: n, ..cfg.clone() });
+        }
         World {
             cfg: cfg.clone(),
             client: cfg.build(),
@@ -417,12 +478,19 @@ impl World {
         // the application keeps its own handle to the collection (a template it sends again later): a clone stays alive
         // across the call
         let template = attrs.clone();
-        let r = guard(|| self.client.send_request(m, attrs, vec![DIRTY; 2048], at));
+        let cap = self.buffer_cap(app);
+        let r = guard(|| self.client.send_request(m, attrs, vec![DIRTY; cap], at));
         drop(template);
         self.after_send(r, app, true, m)
     }
 
     /// send_request with a caller buffer that is too small for any message (the encode step must fail cleanly)
+    /// the caller's buffer: 2048 bytes, or 70,000 when the application list holds a long list-valued attribute
+    fn buffer_cap(&self, app: usize) -> usize {
+        let big = self.app_lists[app % self.app_lists.len()].iter().any(|l| matches!(l, L::UnknownAttributes(v) if v.len() > 400));
+        if big { 70_000 } else { 2048 }
+    }
+
     pub fn send_tiny(&mut self, app: usize, cap: usize) -> Obs {
         let attrs = self.attrs(app);
         let at = self.instant();
@@ -435,14 +503,15 @@ impl World {
         let attrs = self.attrs(app);
         let at = self.instant();
         let m = MessageMethod::try_from(method).unwrap();
+        let cap = self.buffer_cap(app);
         if indication {
             let template = attrs.clone();
-            let r = guard(|| self.client.send_indication(m, attrs, vec![DIRTY; 2048]));
+            let r = guard(|| self.client.send_indication(m, attrs, vec![DIRTY; cap]));
             drop(template);
             self.after_send(r, app, false, m)
         } else {
             let template = attrs.clone();
-            let r = guard(|| self.client.send_request(m, attrs, vec![DIRTY; 2048], at));
+            let r = guard(|| self.client.send_request(m, attrs, vec![DIRTY; cap], at));
             drop(template);
             self.after_send(r, app, true, m)
         }
